@@ -5,7 +5,7 @@ import CSD.Generated.Bodies
 import CSD.Model.SourceText
 import CSD.Lemmas.PFCMeta
 import CSD.Lemmas.RPDAC2
-import CSD.Lemmas.FM8
+import CSD.Lemmas.FM11
 
 namespace CSD.Props.C03
 open CSD CSD.PFC
@@ -130,6 +130,12 @@ theorem fmindex_locate_is_rank {S : List Str} {L : List FM.Row} {d : FM.Dict} (h
 
 example : validDict [[0x61, 0x62], [0x62]] = true ∧ ∃ L d, FM.DictOK [[0x61, 0x62], [0x62]] L d :=
   ⟨by decide, _, _, FM.dictOK_buildDict _ 2⟩
+
+
+/-- `extract(i + 1)` is the `i`-th smallest member (0-based `i`). -/
+theorem fmindex_extract_is_ith_smallest {S : List Str} {L : List FM.Row} {d : FM.Dict} (hv : validDict S = true)
+    (hd : FM.DictOK S L d) (hml : ∀ s ∈ S, s.length < d.maxlength) (i : Nat) (hi : i < S.length) :
+    d.extract (i + 1) = some (some (FM.symsOf S[i])) := FM.extract_spec hv hd hml i hi
 
 /-- The FM-index models were written against the current text of the C++ functions they mirror. -/
 theorem fm_models_match_source_text :
